@@ -31,11 +31,12 @@ theorem startCluster_sameGeom {v v' : FatVolume} (h : SameGeom v v') (dc : Nat) 
 /-- How `make_dir` ended once the new cluster `cn` was allocated, with the licence of its writes. -/
 inductive MkdirOutcome (v : FatVolume) (dc : Nat) (dcs : List Nat) (cn : Nat) (dv dv' : Dev) : Res Unit → Prop
   /-- the parent had a free slot `(b, off)` -/
-  | slot (b off : Nat) (hb : DirBlock v dc dcs b) (ho : off + 32 ≤ 512) (hal : off % 32 = 0)
+  | slot (b off : Nat) (hb : DirBlock v dc dcs b) (ho : off + 32 ≤ 512) (hal : off % 32 = 0) (hfree : FreeAt dv.disk b off)
       (lic : ∀ L : Licence, cn ∈ L.fatClusters → cn ∈ L.dataClusters → (b, off) ∈ L.slots → LicD v L dv dv') :
       MkdirOutcome v dc dcs cn dv dv' (.ok ())
   /-- the chained parent was full and grew by the cluster `c` -/
   | grown (last c : Nat) (hk : ¬ IsFixedRoot v dc) (hl : dcs.getLast? = some last) (hr : InRange v c)
+      (hfc : isFree v dv.disk c)
       (lic : ∀ L : Licence, cn ∈ L.fatClusters → cn ∈ L.dataClusters → last ∈ L.fatClusters → c ∈ L.fatClusters →
         c ∈ L.dataClusters → LicD v L dv dv') : MkdirOutcome v dc dcs cn dv dv' (.ok ())
   /-- no room for the entry in the parent: the new cluster was freed again -/
@@ -146,13 +147,63 @@ theorem makeDir_lic (parent : Nat) (sfn : Bytes) (att : Nat) (now : Timestamp) (
         (fun hz => by cases hz)
       exact hl01.trans (LicD.sameGeom hg1 ((hl13 L h2).trans (hl34 L h2)))
     cases hout with
-    | slot en hb ho hal lic =>
+    | slot en hb ho hal hfr lic =>
       refine ⟨cn, .ok (), s5, by rw [hhead]; rfl, hs5, hg4.trans hg5, hrn, hfree, ?_⟩
-      exact .slot en.entryBlock en.entryOffset ((DirBlock.sameGeom hg4 _ _ _).1 hb) ho hal fun L h1 h2 h3 =>
+      have hb' : DirBlock s.vol parent dcs en.entryBlock := (DirBlock.sameGeom hg4 _ _ _).1 hb
+      -- the parent's block is no block of the new cluster: it is what it was before the call
+      have hkeepb : s4.dev.disk.get en.entryBlock = s.dev.disk.get en.entryBlock := by
+        have hregb := dirBlock_region s.vol hs.geom parent dcs en.entryBlock
+          (fun hk x hx => chain_inRange (hdir hk) x hx) hb'
+        have hnf : regionOf s.vol en.entryBlock ≠ .fat := by rcases hregb with h | h <;> rw [h] <;> intro e <;> cases e
+        have hne : ∀ j, j < s1.vol.blocksPerCluster → en.entryBlock ≠ sb + j := by
+          intro j hj e
+          have hdat : regionOf s.vol en.entryBlock = .data := by
+            rw [← hg1.regionOf, e]
+            exact data_block_region s1.vol hs1.geom cn _ hrn1 (by rw [hsbdef]; omega) (by rw [hsbdef]; omega)
+          unfold DirBlock at hb'
+          by_cases hk : IsFixedRoot s.vol parent
+          · rw [if_pos hk] at hb'
+            have := FatLens.root_blocks_in_root_region s.vol hs.geom hk.1 (en.entryBlock - rootStart s.vol) (by
+              have := hb'.2; unfold rootBlocks at this; show _ < blockCountFromBytes (s.vol.rootEntriesCount * 32); omega)
+            rw [show s.vol.lbaStart + s.vol.firstRootDirBlock + (en.entryBlock - rootStart s.vol) = en.entryBlock by
+              have := hb'.1; unfold rootStart at this ⊢; omega, hdat] at this
+            cases this
+          · rw [if_neg hk] at hb'
+            obtain ⟨x, hx, g1, g2⟩ := hb'
+            have hxr := chain_inRange (hdir hk) x hx
+            have := FatLens.cluster_blocks_disjoint_of_lt s.vol hs.geom x cn (en.entryBlock - clusterToBlock s.vol x) j hxr.1 hrn.1
+              hxr.2 hrn.2 (by omega) (by rw [← hbpc]; exact hj) (by rw [← hctb]; omega)
+            exact hcn_dcs hk (this.1 ▸ hx)
+        have h4 := zeroBlocks_content (s1.vol.blocksPerCluster - 1) (sb + 1) s3 hs3.noFault en.entryBlock
+        rw [hz] at h4
+        rw [h4, if_neg (by
+          rintro ⟨g1, g2⟩
+          exact hne (en.entryBlock - sb) (by omega) (by omega)), hd3, Disk.get_set_ne _ _ _ _ (fun e => hne 0 hbpos (by omega))]
+        obtain ⟨_, _, _, _, _, hfr1⟩ := DirFat.alloc_frame s s1 none false cn hs.noFault hs.coherent hs.blocksOK hs.geom hs.hint
+          (fun p hp => by cases hp) ha
+        exact hfr1 _ (DirFat.not_mem_fatWrites_of_region s.vol hs.geom cn _ hrn.2 hnf) (fun p hp => by cases hp)
+          (fun hzz => by cases hzz.1)
+      exact .slot en.entryBlock en.entryOffset hb' ho hal (by unfold FreeAt at hfr ⊢; rw [← hkeepb]; exact hfr) fun L h1 h2 h3 =>
         (hl04 L h1 h2).trans (LicD.sameGeom hg4 (lic L h3))
     | grown en last c hk hl hr hfree' hb ho lic =>
       refine ⟨cn, .ok (), s5, by rw [hhead]; rfl, hs5, hg4.trans hg5, hrn, hfree, ?_⟩
-      exact .grown last c (fun h => hk ((IsFixedRoot.sameGeom hg4 parent).2 h)) hl ((hg4.inRange c).1 hr) fun L h1 h2 h3 h4 h5 =>
+      have hr0 : InRange s.vol c := (hg4.inRange c).1 hr
+      have hfc4 : isFree s.vol s4.dev.disk c := (hg4.isFree _ c).1 hfree'
+      have hne : c ≠ cn := by
+        intro e
+        rw [e] at hfc4
+        have h1 : isFree s.vol s1.dev.disk cn := (ForestStep.isFree_congr_raw (hraw4 cn hrn.2)).1 hfc4
+        have h2 : nextOf s.vol s1.dev.disk cn = decodeNext s.vol.fatType (fatRaw s.vol s1.dev.disk cn) := rfl
+        rw [heof] at h2
+        unfold isFree fatEntry at h1
+        cases hft : s.vol.fatType <;> rw [hft] at h1 h2 <;> simp only at h1
+        · rw [h1] at h2; unfold decodeNext at h2; simp at h2
+        · unfold decodeNext at h2
+          simp only at h2
+          rw [h1] at h2; simp at h2
+      have hfc0 : isFree s.vol s.dev.disk c :=
+        (ForestStep.isFree_congr_raw ((hraw4 c hr0.2).trans (hother c hr0.2 hne (fun e => by cases e)))).1 hfc4
+      exact .grown last c (fun h => hk ((IsFixedRoot.sameGeom hg4 parent).2 h)) hl hr0 hfc0 fun L h1 h2 h3 h4 h5 =>
         (hl04 L h1 h2).trans (LicD.sameGeom hg4 (lic L h3 h4 h5))
     | full hw hd =>
       -- the clean-up
@@ -182,8 +233,11 @@ theorem MkdirOutcome.of_ro {v : FatVolume} {dc : Nat} {dcs : List Nat} {cn : Nat
     (hw : dv1.wlog = dv.wlog) (hd : dv1.disk = dv.disk) (h : MkdirOutcome v dc dcs cn dv1 dv' r) :
     MkdirOutcome v dc dcs cn dv dv' r := by
   cases h with
-  | slot b off hb ho hal lic => exact .slot b off hb ho hal fun L h1 h2 h3 => (LicD.same hw hd).trans (lic L h1 h2 h3)
-  | grown last c hk hl hr lic => exact .grown last c hk hl hr fun L h1 h2 h3 h4 h5 => (LicD.same hw hd).trans (lic L h1 h2 h3 h4 h5)
+  | slot b off hb ho hal hfree lic =>
+    exact .slot b off hb ho hal (by unfold FreeAt at hfree ⊢; rw [← hd]; exact hfree) fun L h1 h2 h3 =>
+      (LicD.same hw hd).trans (lic L h1 h2 h3)
+  | grown last c hk hl hr hfc lic =>
+    exact .grown last c hk hl hr (by rw [← hd]; exact hfc) fun L h1 h2 h3 h4 h5 => (LicD.same hw hd).trans (lic L h1 h2 h3 h4 h5)
   | full lic => exact .full fun L h1 h2 => (LicD.same hw hd).trans (lic L h1 h2)
 
 end Sdmmc.Lemmas.WriteSet
